@@ -21,7 +21,7 @@ META_OTHER_KINDS = ['key_signature', 'text', 'track_name', 'sequencer_specific',
 ALL_KINDS = CHANNEL_KINDS + COMMON_KINDS + SYSEX_KINDS + META_INT_KINDS + META_OTHER_KINDS
 REP_KINDS = ['note_on', 'note_off', 'program_change', 'pitchwheel', 'sysex1', 'songpos', 'tune_request',
              'set_tempo', 'text', 'unknown_meta', 'end_of_track']
-TEXT_MENU = ['', 'Piano é', 'x' * 130]
+TEXT_MENU = ['', 'Piano é', 'x' * 130]       # ('Piano é' is encodable in every charset the harnesses use)
 
 
 def make(cx, mido, kind, tag, delta):
